@@ -83,6 +83,10 @@ def script_of(plan):
         L.append("      loggee a in .sim.v as v")
     elif plan.get("fields") == "two":
         L.append("      loggee a in .sim.v as v value in .sim.w as w")
+    elif plan.get("fields") == "abs":
+        # a selection that names a field the share does not have when the logger starts (it may appear later): its column stays
+        # empty until then and must not keep the fields listed after it from being watched
+        L.append("      loggee zz a in .sim.v as v")
     else:
         L.append("      loggee .sim.v as v")
     return "\n".join(L) + "\n"
@@ -94,7 +98,7 @@ class C22(Check):
     engine = "logsim"
     design_ref = "§6 C22"
     rule = ("one logger (own period >= the tick period or every tick) with one log of a drawn rule (once, always, update, change, "
-            "streak, deck, never) and field selection (all fields, one field, two loggees), writer framers before and after the "
+            "streak, deck, never) and field selection (all fields, one field, two loggees, a selection naming a field that is absent at start), writer framers before and after the "
             "logger in the tick order applying a seeded history of share updates with same and different values, field-only "
             "changes, several updates per tick, list appends and deck pushes; the file on the simulated disk is compared with "
             "what the rule promises given the trace of writes and logger runs in execution order; variations: logger stopped and started again, a reused directory holding an empty or a started file (with and without rotation), the logger as a slave run and stopped by fiats in one tick; non-trivial = an update "
@@ -104,7 +108,7 @@ class C22(Check):
     components["stub"] = COMPONENTS["stub"] + ["file system (substrate.fs.SimFS, no faults)", "calendar (log directory name)"]
     assumptions = ["'update': at each logger run after the first a record is due iff some loggee was updated after the previous record in execution order (not stamp order)",
                    "the final log pass made when the logger is stopped counts as a logger run"]
-    required_probes = ["update-after-logger-same-tick", "same-value-update", "logger-period", "streak", "deck", "logger-restarted", "deck-empty-mapping", "deck-non-mapping-skipped", "reused-empty-file", "reused-content-file", "rotating-log", "stopped-in-the-tick-of-its-last-run"]
+    required_probes = ["update-after-logger-same-tick", "same-value-update", "logger-period", "streak", "deck", "logger-restarted", "deck-empty-mapping", "deck-non-mapping-skipped", "reused-empty-file", "reused-content-file", "rotating-log", "stopped-in-the-tick-of-its-last-run", "selected-field-absent-at-start", "absent-field-appeared"]
     quick_runs = 6000
     thorough_runs = 300000
     shrink_fields = ["hist0", "hist1"]
@@ -113,7 +117,12 @@ class C22(Check):
         return [{"P": "0.25", "ticks": 6, "rule": "update", "fields": None, "lperiod": None,
                  "hist0": [[1, ".sim.v", "a", 11]], "hist1": [[1, ".sim.v", "a", 12], [3, ".sim.v", "b", 13]]},
                 {"P": "0.25", "ticks": 6, "rule": "change", "fields": "a", "lperiod": "0.5",
-                 "hist0": [[1, ".sim.v", "a", 5], [2, ".sim.v", "a", 5], [3, ".sim.v", "b", 9]], "hist1": [[4, ".sim.v", "a", 6]]}]
+                 "hist0": [[1, ".sim.v", "a", 5], [2, ".sim.v", "a", 5], [3, ".sim.v", "b", 9]], "hist1": [[4, ".sim.v", "a", 6]]},
+                # a selected field that is absent when the logger starts, the field after it changing meanwhile, then it appears
+                {"P": "0.25", "ticks": 8, "rule": "change", "fields": "abs", "lperiod": None,
+                 "hist0": [[1, ".sim.v", "a", 5], [3, ".sim.v", "a", 6], [5, ".sim.v", "zz", 7]], "hist1": [[6, ".sim.v", "a", 8]]},
+                {"P": "0.25", "ticks": 6, "rule": "always", "fields": "abs", "lperiod": None,
+                 "hist0": [[2, ".sim.v", "a", 5]], "hist1": [[4, ".sim.v", "zz", 7]]}]
 
     def generate(self, S, index, tier):
         g = S.gen
@@ -161,6 +170,12 @@ class C22(Check):
             plan["slave"] = sg.randint(1, max(1, ticks - 2))
             plan["lperiod"] = None
             plan["rotate"] = False
+        if rule in ("once", "always", "update", "change") and sg.random() < 0.2:
+            plan["fields"] = "abs"
+            for key in ("hist0", "hist1"):
+                for h in plan[key]:
+                    if h[1] == ".sim.v" and h[2] == "b" and sg.random() < 0.5:
+                        h[2] = "zz"
         return plan
 
     def execute(self, plan):
@@ -224,6 +239,9 @@ class C22(Check):
             cols = ["v"]
         elif fields == "two":
             cols = ["v", "w"]
+        elif fields == "abs":
+            cols = ["v.zz", "v.a"]
+            out.probe("selected-field-absent-at-start")
         else:
             cols = ["v.a", "v.b"]
         header = "text\t%s\tl1\n_time\t%s\n" % (RULENAME[rule], "\t".join(cols))
@@ -310,6 +328,8 @@ class C22(Check):
                 vals = [v["a"]]
             elif fields == "two":
                 vals = [v["a"], w["value"]]
+            elif fields == "abs":
+                vals = [v.get("zz", ""), v["a"]]
             else:
                 vals = [v["a"], v["b"]]
             return (fmt(stamp),) + tuple(fmt(x) for x in vals)
@@ -319,6 +339,10 @@ class C22(Check):
                 return (v["a"],)
             if fields == "two":
                 return (v["a"], w["value"])
+            if fields == "abs":
+                if "zz" in v:
+                    out.probe("absent-field-appeared")
+                return (v.get("zz", ("absent",)), v["a"])
             return (v["a"], v["b"])
 
         ran_this_tick = {}
